@@ -248,3 +248,25 @@ def feed_blas_frames(report, tier):
                       'proved' if not bad_frame else 'refuted',
                       'frame obligations of the C17 row of blas.%s' % fn,
                       'blas.c:%s' % fn, by=['z3']))
+
+
+def demote_unconfirmed_shape_checks(report, pred, why):
+    """Obligations decided by the *shape* of a statement (by = syntactic: the
+    statement is compared with the form the contract expects) say "this code
+    is not written the way the contract reads it" when they fail -- a real
+    slip or a harmless rewrite.  The replay decides: with a failing input
+    from the battery the refutation stands (VIOLATION with the input); with
+    none it is reported as UNDECIDED (exit 2), never as a violation."""
+    for ob in report.obs:
+        if ob.status != 'refuted' or not pred(ob):
+            continue
+        try:
+            ok, info = report.replayer(ob, None)
+        except Exception:
+            ok = False
+        if not ok:
+            ob.status = 'undecided'
+            ob.detail = ('%s; the replay battery finds no failing input, so '
+                         'this is a question about the contract\'s reading '
+                         'of the code, not a violation (%s)' % (
+                             why, ob.detail or ''))
